@@ -9,6 +9,7 @@ change when the text after the token at which the parser stopped is replaced.
 """
 from __future__ import annotations
 
+import contextlib
 import random
 
 from .. import gen, rsieve
@@ -33,7 +34,8 @@ ASSUMPTIONS = [
 ]
 FLOORS = {
     "quick": {"exact-position-checks": 40000, "suffix-groups": 40000, "crlf-cases": 8000,
-              "multibyte-before-x": 8000, "mut-position-checks": 8000},
+              "multibyte-before-x": 8000, "mut-position-checks": 8000,
+              "debug-parser-runs": 40000},
     "thorough": {"exact-position-checks": 500000, "suffix-groups": 500000,
                  "crlf-cases": 100000, "multibyte-before-x": 100000,
                  "mut-position-checks": 50000},
@@ -193,6 +195,14 @@ def make_offenders(toks, tree, loaded, rng):
     return out
 
 
+class _Sink:
+    def write(self, s):
+        return len(s)
+
+    def flush(self):
+        pass
+
+
 def check_offender(V, toks, cls, gap, x, res: Result, crlf):
     off = toks[gap].pos if gap < len(toks) else len(V)
     prefix = V[:off]
@@ -219,6 +229,17 @@ def check_offender(V, toks, cls, gap, x, res: Result, crlf):
         res.case(data)
         if first is None:
             first = (data, o)
+        if sfx is None or sfx == SUFFIXES[3] or sfx == SUFFIXES[4]:
+            # the constructor's debug switch only adds traces: same report expected
+            with contextlib.redirect_stdout(_Sink()):
+                od = lab.parse(data, parser=lab.sl_parser.Parser(debug=True))
+            differs = od.verdict() is not False or (od.error, od.error_pos) != (o.error, o.error_pos)
+            res.count("debug-parser-runs")
+            res.monitor("debug-switch-same-report", differs)
+            if differs:
+                res.violation({"oracle": "report-depends-on-debug-switch", "class": cls},
+                              {"input": data, "default": repr((o.error, o.error_pos)),
+                               "debug": repr((od.verdict(), od.error, od.error_pos))})
     if first is None:
         return
     data, o = first
